@@ -1,18 +1,29 @@
 package larking
 
 import (
+	"context"
 	"io"
+	"net"
 	"net/http"
 	"net/url"
 
+	"google.golang.org/grpc/codes"
+	"google.golang.org/grpc/credentials/insecure"
+	"google.golang.org/grpc/metadata"
+	"google.golang.org/grpc/reflection"
 	rpb "google.golang.org/grpc/reflection/grpc_reflection_v1alpha"
+	"google.golang.org/grpc/status"
+	"google.golang.org/grpc/test/bufconn"
 
 	"github.com/gobwas/ws"
 	"google.golang.org/genproto/googleapis/api/annotations"
 	"google.golang.org/grpc"
 	"google.golang.org/protobuf/proto"
+	"google.golang.org/protobuf/reflect/protodesc"
 	"google.golang.org/protobuf/reflect/protoreflect"
+	"google.golang.org/protobuf/reflect/protoregistry"
 	"google.golang.org/protobuf/types/descriptorpb"
+	"google.golang.org/protobuf/types/dynamicpb"
 )
 
 // Declarations shared by several harness files (moved here by tools: engine/cmd/splitlib).
@@ -554,3 +565,266 @@ func (s *vfReflStream) Recv() (*rpb.ServerReflectionResponse, error) {
 
 // (from h_registry.go)
 func (s *vfReflStream) CloseSend() error { s.closed = true; return nil }
+
+// (from h_conc.go)
+var vfNativeCleanup []func()
+
+// (from h_conc.go)
+func vfCloseBackends() {
+	for _, f := range vfNativeCleanup {
+		f()
+	}
+	vfNativeCleanup = nil
+}
+
+// (from h_conc.go)
+// vfNativeBackend is a live in-process backend (natively): a real grpc.Server over bufconn whose
+// reflection service describes the CURRENT spec set (vfBackendSetSpecs changes it, as a backend that
+// was redeployed with other services would).
+type vfNativeBackend struct {
+	specs []vfSvcSpec
+	cc    *grpc.ClientConn
+}
+
+// (from h_conc.go)
+var vfNativeBackends = map[*grpc.ClientConn]*vfNativeBackend{}
+
+// (from h_conc.go)
+func (b *vfNativeBackend) files() *protoregistry.Files {
+	files := new(protoregistry.Files)
+	seen := map[string]bool{}
+	for _, sp := range b.specs {
+		if seen[sp.file] {
+			continue
+		}
+		seen[sp.file] = true
+		fdp := &descriptorpb.FileDescriptorProto{}
+		if err := proto.Unmarshal(vfFileBytes(sp.file), fdp); err != nil {
+			panic(err)
+		}
+		fd, err := protodesc.NewFile(fdp, protoregistry.GlobalFiles)
+		if err != nil {
+			panic(err)
+		}
+		if err := files.RegisterFile(fd); err != nil {
+			panic(err)
+		}
+	}
+	return files
+}
+
+// (from h_conc.go)
+// GetServiceInfo implements reflection.ServiceInfoProvider.
+func (b *vfNativeBackend) GetServiceInfo() map[string]grpc.ServiceInfo {
+	out := map[string]grpc.ServiceInfo{}
+	for _, sp := range b.specs {
+		out[sp.full] = grpc.ServiceInfo{Metadata: sp.file}
+	}
+	return out
+}
+
+// (from h_conc.go)
+func (b *vfNativeBackend) FindFileByPath(p string) (protoreflect.FileDescriptor, error) {
+	if fd, err := b.files().FindFileByPath(p); err == nil {
+		return fd, nil
+	}
+	return protoregistry.GlobalFiles.FindFileByPath(p)
+}
+
+// (from h_conc.go)
+func (b *vfNativeBackend) FindDescriptorByName(n protoreflect.FullName) (protoreflect.Descriptor, error) {
+	if d, err := b.files().FindDescriptorByName(n); err == nil {
+		return d, nil
+	}
+	return protoregistry.GlobalFiles.FindDescriptorByName(n)
+}
+
+// (from h_conc.go)
+// vfBackendSetSpecs (native body; intercepted by the engine): the backend behind cc now exposes specs.
+func vfBackendSetSpecs(cc *grpc.ClientConn, specs []vfSvcSpec) {
+	if b := vfNativeBackends[cc]; b != nil {
+		b.specs = specs
+	}
+}
+
+// (from h_conc.go)
+// vfBackendConn (native body; intercepted by the engine): a live backend exposing specs.
+func vfBackendConn(specs []vfSvcSpec) *grpc.ClientConn {
+	b := &vfNativeBackend{specs: specs}
+	files := b.files()
+	srv := grpc.NewServer()
+	var ccp *grpc.ClientConn
+	for _, sp := range specs {
+		sd := &grpc.ServiceDesc{ServiceName: sp.full, HandlerType: (*interface{})(nil), Metadata: sp.file}
+		reqD, _ := files.FindDescriptorByName(protoreflect.FullName("vf." + sp.reqName))
+		respD, _ := files.FindDescriptorByName(protoreflect.FullName("vf.Resp" + sp.reqName))
+		for _, ms := range sp.methods {
+			// every method is served by the scripted backend application (h_proxy.go)
+			h := vfNativeProxyHandler(func() *vfProxyBackend { return vfProxyTable[ccp] }, ms.cs, reqD.(protoreflect.MessageDescriptor), respD.(protoreflect.MessageDescriptor))
+			sd.Streams = append(sd.Streams, grpc.StreamDesc{StreamName: ms.name, Handler: h, ClientStreams: ms.cs, ServerStreams: ms.ss})
+		}
+		srv.RegisterService(sd, struct{}{})
+	}
+	rs := reflection.NewServer(reflection.ServerOptions{Services: b, DescriptorResolver: b, ExtensionResolver: protoregistry.GlobalTypes})
+	rpb.RegisterServerReflectionServer(srv, rs)
+	lis := bufconn.Listen(1 << 16)
+	go srv.Serve(lis)
+	cc, err := grpc.NewClient("passthrough:///verif",
+		grpc.WithContextDialer(func(ctx context.Context, _ string) (net.Conn, error) { return lis.DialContext(ctx) }),
+		grpc.WithTransportCredentials(insecure.NewCredentials()))
+	if err != nil {
+		panic(err)
+	}
+	ccp = cc
+	b.cc = cc
+	vfNativeBackends[cc] = b
+	vfNativeCleanup = append(vfNativeCleanup, func() { delete(vfNativeBackends, cc); cc.Close(); srv.Stop() })
+	return cc
+}
+
+// (from h_proxy.go)
+type vfBackendScript struct {
+	replies [][]byte // encoded reply messages, in order
+	final   error    // the handler's return value (nil or a status error)
+	failAt  int      // with final != nil: 0 before reading anything, 1 right after the first reply, 2 at the end
+	drain   int      // client-streaming shapes: 0 read the requests up to end-of-stream before replying, 1 after replying, 2 never (the handler returns without reading the rest)
+}
+
+// (from h_proxy.go)
+type vfBackendObs struct {
+	calls  int
+	reqs   [][]byte
+	md     []string
+	sawEOF bool
+}
+
+// (from h_proxy.go)
+type vfByteStream interface {
+	Context() context.Context
+	RecvBytes() ([]byte, error) // io.EOF at the client's end-of-stream
+	SendBytes([]byte) error
+}
+
+// (from h_proxy.go)
+func vfBackendRun(sc *vfBackendScript, obs *vfBackendObs, cs bool, st vfByteStream) error {
+	obs.calls++
+	if md, ok := metadata.FromIncomingContext(st.Context()); ok {
+		obs.md = md["x-md"]
+	}
+	if sc.final != nil && sc.failAt == 0 {
+		return sc.final
+	}
+	drain := func() error {
+		for {
+			b, err := st.RecvBytes()
+			if err == io.EOF {
+				obs.sawEOF = true
+				return nil
+			}
+			if err != nil {
+				return err
+			}
+			obs.reqs = append(obs.reqs, b)
+		}
+	}
+	if !cs {
+		b, err := st.RecvBytes()
+		if err != nil {
+			return status.Error(codes.Internal, "backend: no request")
+		}
+		obs.reqs = append(obs.reqs, b)
+	} else if sc.drain == 0 {
+		if err := drain(); err != nil {
+			return err
+		}
+	}
+	for i, rp := range sc.replies {
+		if err := st.SendBytes(rp); err != nil {
+			return err
+		}
+		if sc.final != nil && sc.failAt == 1 && i == 0 {
+			return sc.final
+		}
+	}
+	if cs && sc.drain == 1 {
+		if err := drain(); err != nil {
+			return err
+		}
+	}
+	return sc.final
+}
+
+// (from h_proxy.go)
+// vfProxyBackends: what each backend connection does (set by the harness before the call).
+type vfProxyBackend struct {
+	script *vfBackendScript
+	obs    *vfBackendObs
+}
+
+// (from h_proxy.go)
+var vfProxyTable = map[*grpc.ClientConn]*vfProxyBackend{}
+
+// (from h_proxy.go)
+type vfNativeByteStream struct {
+	grpc.ServerStream
+	req, resp protoreflect.MessageDescriptor
+}
+
+// (from h_proxy.go)
+func (s vfNativeByteStream) RecvBytes() ([]byte, error) {
+	m := dynamicpb.NewMessage(s.req)
+	if err := s.ServerStream.RecvMsg(m); err != nil {
+		return nil, err
+	}
+	return proto.Marshal(m)
+}
+
+// (from h_proxy.go)
+func (s vfNativeByteStream) SendBytes(b []byte) error {
+	m := dynamicpb.NewMessage(s.resp)
+	if err := proto.Unmarshal(b, m); err != nil {
+		return err
+	}
+	return s.ServerStream.SendMsg(m)
+}
+
+// (from h_proxy.go)
+// vfNativeProxyHandler is installed by vfBackendConn for every method of a backend natively.
+func vfNativeProxyHandler(be func() *vfProxyBackend, cs bool, req, resp protoreflect.MessageDescriptor) grpc.StreamHandler {
+	return func(srv interface{}, stream grpc.ServerStream) error {
+		b := be()
+		if b == nil {
+			return status.Error(codes.Unavailable, "verif: unknown backend")
+		}
+		return vfBackendRun(b.script, b.obs, cs, vfNativeByteStream{stream, req, resp})
+	}
+}
+
+// (from h_registry.go)
+type vfRouteProbe struct{ route, verb string }
+
+// (from h_registry.go)
+var vfAllMethods = []struct {
+	name   string
+	route  string
+	verb   string
+	others []vfRouteProbe // additional bindings
+}{
+	{"/vf.A/M1", "/v1/xx/yy", "GET", nil},
+	{"/vf.A/M2", "/v1/a2/zz", "GET", []vfRouteProbe{{"/v1/a2b", "POST"}}},
+	{"/vf.B/M1", "/v1/xx", "PUT", nil},
+	{"/vf.B/M2", "/v1/zz", "GET", nil},
+}
+
+// (from h_registry.go)
+func vfFingerprint(s *state) string {
+	if s == nil {
+		return "nil"
+	}
+	fp := s.path.String()
+	for _, me := range vfAllMethods {
+		fp += "|" + me.name + "=" + string(rune('0'+len(s.handlers[me.name])))
+	}
+	fp += "|conns=" + string(rune('0'+len(s.conns)))
+	return fp
+}
